@@ -584,7 +584,8 @@ class Interp:
         return d
 
     def ev_JoinedStr(self, e, env):
-        parts = []
+        from .heap import FStr, SymStr
+        parts, symbolic = [], False
         for v in e.values:
             if isinstance(v, ast.Constant):
                 parts.append(str(v.value))
@@ -593,7 +594,13 @@ class Interp:
                     val = self.eval(v.value, env)
                 except (PyRaise, Unsupported):
                     val = "<?>"
-                parts.append(self.to_str(val))
+                if isinstance(val, (SInt, SymStr, FStr)):
+                    symbolic = True
+                    parts.append(val)
+                else:
+                    parts.append(self.to_str(val))
+        if symbolic:
+            return FStr(parts)
         return "".join(parts)
 
     def ev_FormattedValue(self, e, env):
@@ -837,6 +844,9 @@ class Interp:
                 return k.v if k.v.denominator != 1 else int(k.v)
         if isinstance(k, (Obj, ClassRef, Closure)):
             return k
+        from .heap import FStr
+        if isinstance(k, FStr):
+            return k          # keyed by identity: a string with symbolic parts only matches itself
         if isinstance(k, SInt):
             raise Unsupported("symbolic dict key / set element")
         raise Unsupported(f"dict key of type {type(k).__name__}")
@@ -1200,6 +1210,10 @@ class Interp:
         """Python == -> bool | SBool"""
         if self.is_num(a) and self.is_num(b):
             return self.scalar_compare("==", a, b)
+        if hasattr(a, "py_eq") and not isinstance(a, (Obj,)):
+            return a.py_eq(self, b)
+        if hasattr(b, "py_eq") and not isinstance(b, (Obj,)):
+            return b.py_eq(self, a)
         if a is None or b is None:
             return a is b
         if isinstance(a, str) or isinstance(b, str):
